@@ -102,7 +102,7 @@ def r1(ctx: RuleCtx) -> None:
     an, sinks = _r1_findings(mod, PIPELINE_ROOTS)
     scans = [s for s in sinks if s.what.startswith('text of ')]
     ctx.floor('placeholder scan sites (re.sub family) in the pipeline', len(scans), 1)
-    ctx.floor('call sites handing a text to a scan', len(sinks), 5)
+    ctx.floor('call sites handing a text to a scan', len(sinks), 2)
     undecided: T.List[str] = []
     for s in sinks:
         where = f'{s.func}: {short(s.call)} [{s.what}]'
@@ -178,6 +178,24 @@ def _single_def(fn: ast.FunctionDef, e: ast.AST) -> ast.AST:
     return e
 
 
+def _scan_args(c: ast.Call) -> T.Optional[T.Dict[str, ast.AST]]:
+    """Arguments of a re.sub-family call bound by signature: repl, string, count, flags (pattern for the module-level form)."""
+    if attr_chain(c.func) in taint.SCAN_FUNCS:
+        sig = ['pattern', 'repl', 'string', 'count', 'flags']
+    else:
+        sig = ['repl', 'string', 'count']
+    out: T.Dict[str, ast.AST] = {}
+    for i, a in enumerate(c.args):
+        if isinstance(a, ast.Starred) or i >= len(sig):
+            return None
+        out[sig[i]] = a
+    for k in c.keywords:
+        if k.arg is None or k.arg not in sig:
+            return None
+        out[k.arg] = k.value
+    return out
+
+
 def _scan_call(mod: Module, qn: str) -> T.Tuple[ast.Call, str, ast.AST]:
     """The single re.sub-family call of qn: (call, callback name, text expression)."""
     fn = mod.func(qn)
@@ -186,13 +204,10 @@ def _scan_call(mod: Module, qn: str) -> T.Tuple[ast.Call, str, ast.AST]:
     if len(calls) != 1:
         raise Undecided(f'{qn}: expected exactly one re.sub-family call, found {len(calls)}')
     c = calls[0]
-    if attr_chain(c.func) in taint.SCAN_FUNCS:
-        rest = c.args[1:]
-    else:
-        rest = c.args
-    if len(rest) < 2 or not isinstance(rest[0], ast.Name):
+    b = _scan_args(c)
+    if b is None or 'repl' not in b or 'string' not in b or not isinstance(b['repl'], ast.Name):
         raise Undecided(f'{qn}: scan call with unrecognised arguments: {short(c)}')
-    return c, rest[0].id, rest[1]
+    return c, b['repl'].id, b['string']
 
 
 # ---------------------------------------------------------------------------------------------
@@ -653,7 +668,7 @@ def _r2_callback(ctx: RuleCtx, mod: Module, kinds: T.Dict[str, T.Any], gd: T.Dic
 
     spec = Spec(qn, confs, ref, _callback_extra(m))
     n = _check_table(ctx, mod, spec, tab, 'callback of the meson scan', outcome=outcome)
-    ctx.floor('callback: (world, type) combinations compared', n, 8)
+    ctx.floor('callback: (world, type) combinations compared', n, 3)
     # the name looked up is the `variable` group
     names: T.Set[T.Any] = set()
     for a in tab.atoms():
@@ -723,9 +738,14 @@ def r2(ctx: RuleCtx) -> None:
     # the scan: one re.sub with the callback, no count limit, result and the set of missing names returned
     call, cbname, text = _scan_call(mod, 'do_replacement_meson')
     fn = mod.func('do_replacement_meson')
-    nargs = len(call.args) + len(call.keywords)
-    ctx.require(nargs == 3 and not call.keywords, 'do_replacement_meson: re.sub(regex, callback, line) without count/flags', mod, 'do_replacement_meson', call,
-                'the scan must replace every match (no count limit, no extra flags)', call)
+    sa_ = _scan_args(call) or {}
+    cnt = sa_.get('count')
+    if cnt is not None and not isinstance(cnt, ast.Constant):
+        raise Undecided(f'do_replacement_meson: computed count in `{short(call)}`')
+    if sa_.get('flags') is not None and not (isinstance(sa_['flags'], ast.Constant) and sa_['flags'].value == 0):
+        raise Undecided(f'do_replacement_meson: flags in `{short(call)}`')
+    ctx.require(cnt is None or cnt.value == 0, 'do_replacement_meson: the scan replaces every match (no count limit)', mod, 'do_replacement_meson', call,
+                f'`{short(call)}` limits the number of replacements to {norm(cnt)}: later placeholders of the line are left in the output', call)
     if not mod.has_func(f'do_replacement_meson.{cbname}'):
         raise Undecided(f'do_replacement_meson: replacement `{cbname}` is not a nested function')
     # decision table of the callback
@@ -736,8 +756,16 @@ def r2(ctx: RuleCtx) -> None:
     miss = norm(rets[0].value.elts[1]) if ok else '?'
     cb = mod.func(f'do_replacement_meson.{cbname}')
     recv = {norm(c.func.value) for c in ast.walk(cb) if isinstance(c, ast.Call) and isinstance(c.func, ast.Attribute) and c.func.attr == 'add'}  # type: ignore[attr-defined]
-    ctx.require(ok and recv == {miss}, 'do_replacement_meson returns (scan result, the set the callback records into)', mod, 'do_replacement_meson',
-                rets[0] if rets else fn, f'the function must return (re.sub(...), {sorted(recv)}); it returns {norm(rets[0].value) if rets else "nothing"}')
+    if not ok or len(recv) != 1:
+        raise Undecided('do_replacement_meson: expected a single `return <scan result>, <set of missing names>` and one set the callback adds to')
+    second = _single_def(fn, rets[0].value.elts[1])       # type: ignore[union-attr]
+    fresh = isinstance(second, (ast.Call, ast.Set, ast.Constant)) and norm(rets[0].value.elts[1]) not in recv   # type: ignore[union-attr]
+    if recv == {miss}:
+        ctx.ok('do_replacement_meson returns (scan result, the set the callback records into)')
+    elif fresh or isinstance(rets[0].value.elts[1], ast.Name):   # type: ignore[union-attr]
+        ctx.violation(mod, 'do_replacement_meson', rets[0], f'the callback records missing names into {sorted(recv)} but the function returns `{miss}` as the set of missing names', rets[0])
+    else:
+        raise Undecided(f'do_replacement_meson: second returned element `{miss}`')
 
 
 
@@ -877,13 +905,17 @@ def r3(ctx: RuleCtx) -> None:
 
     # generated header
     total += _header_forms(ctx, mod)
-    ctx.floor('rendering: (world, value-type) combinations compared', total, 60)
+    ctx.floor('rendering: (world, value-type) combinations compared', total, 10)
     # ConfigurationData.get contract the tables rely on
     b = ctx.repo.module('mesonbuild/build.py')
     g = b.func('ConfigurationData.get')
     ok = len(g.body) == 1 and isinstance(g.body[0], ast.Return) and norm(g.body[0].value) == f'self.values[{g.args.args[1].arg}]'
-    ctx.require(ok, 'ConfigurationData.get(name) is self.values[name]: (value, description), KeyError when unset', b, 'ConfigurationData.get', g,
-                'the rendering tables assume get() indexes the dict (raising KeyError for an unset name)')
+    if not ok:
+        rets_g = [s_ for s_ in ast.walk(g) if isinstance(s_, ast.Return)]
+        ok = len(rets_g) == 1 and norm(rets_g[0].value) == f'self.values[{g.args.args[1].arg}]' and not any(isinstance(s_, (ast.Try, ast.If)) for s_ in ast.walk(g))
+    if not ok:
+        raise Undecided('ConfigurationData.get is not `return self.values[name]`: the presence-by-KeyError reading of the tables is not justified')
+    ctx.ok('ConfigurationData.get(name) is self.values[name]: (value, description), KeyError when unset')
 
 
 def _cmake_rhs(ctx: RuleCtx, mod: Module, qn: str, outer: str, ln: str, call: ast.Call) -> int:
@@ -914,6 +946,7 @@ def _cmake_rhs(ctx: RuleCtx, mod: Module, qn: str, outer: str, ln: str, call: as
     n = 0
     seen01 = False
     loop_rows = 0
+    token_roles: T.Set[bool] = set()
     for r in T.cast(T.List[shape.XRow], tab.rows):
         b01 = [v for a, v in r.conds.items() if a.kind == 'in' and isinstance(_parse(a.args[0]), ast.Constant) and _parse(a.args[0]).value == 'cmakedefine01']  # type: ignore[attr-defined]
         if len(b01) != 1:
@@ -962,6 +995,7 @@ def _cmake_rhs(ctx: RuleCtx, mod: Module, qn: str, outer: str, ln: str, call: as
             raise Undecided(f'{qn}: {len(iters)} iteration(s) but {len(elems)} element(s) appended')
         for el, it in zip(elems, iters):
             loop_rows += 1
+            token_roles.add(bool(r.handlers))
             src = norm(it.node.iter)  # type: ignore[attr-defined]
             tok = f'__element__({norm(shape.PathEnv(r.env).close(it.node.iter))})'  # type: ignore[attr-defined]
             ps = [p for p in shape.flatten(shape.parts(el)) if not (isinstance(p, shape.Lit) and p.text == '')]
@@ -977,7 +1011,7 @@ def _cmake_rhs(ctx: RuleCtx, mod: Module, qn: str, outer: str, ln: str, call: as
                         f'a token of the right-hand side is rendered as `{short(el)}`; documented: the value when the token is a set name, else the token itself ({tok})',
                         r.path.events[-1].node)
     ctx.require(seen01, f'{qn}: a row for #cmakedefine01 exists', mod, qn, 'rendering: cmakedefine01 row', 'no row handles #cmakedefine01')
-    ctx.floor(f'{qn}: token rows', loop_rows, 2)
+    ctx.floor(f'{qn}: token kinds (set name / other token) rendered', len(token_roles), 2)
     return n
 
 
@@ -1079,17 +1113,40 @@ def _line_loop(ctx: RuleCtx, mod: Module, qn: str) -> T.Set[str]:
     if len(rets) != 1 or rets[0] not in fn.body or not isinstance(rets[0].value, ast.Tuple) or not all(isinstance(e, ast.Name) for e in rets[0].value.elts[:2]):
         raise Undecided(f'{qn}: expected a single `return lines, missing, ...` at the end')
     res_name, miss_name = rets[0].value.elts[0].id, rets[0].value.elts[1].id  # type: ignore[attr-defined]
-    stores = [n for n in ast.walk(fn) if isinstance(n, ast.Name) and n.id == res_name and isinstance(n.ctx, ast.Store)]
-    muts = [c for c in ast.walk(fn) if isinstance(c, ast.Call) and isinstance(c.func, ast.Attribute) and norm(c.func.value) == res_name]
-    if len(stores) != 1 or any(c.func.attr != 'append' for c in muts):  # type: ignore[attr-defined]
-        raise Undecided(f'{qn}: the result list `{res_name}` is rebound or changed by something else than append')
-    loops = [s for s in fn.body if isinstance(s, ast.For) and any(c in muts for c in ast.walk(s))]
-    if len(loops) != 1 or len([c for c in muts if any(c is x for x in ast.walk(loops[0]))]) != len(muts):
+    def added(st: ast.AST) -> T.Optional[T.List[ast.AST]]:
+        """elements one statement adds to the result list: append(x) / extend([x, ..]) / += [x, ..]"""
+        if isinstance(st, ast.Expr) and isinstance(st.value, ast.Call) and isinstance(st.value.func, ast.Attribute) and norm(st.value.func.value) == res_name \
+                and not st.value.keywords and len(st.value.args) == 1:
+            if st.value.func.attr == 'append':
+                return [st.value.args[0]]
+            if st.value.func.attr == 'extend' and isinstance(st.value.args[0], (ast.List, ast.Tuple)):
+                return list(st.value.args[0].elts)
+        if isinstance(st, ast.AugAssign) and isinstance(st.op, ast.Add) and norm(st.target) == res_name and isinstance(st.value, (ast.List, ast.Tuple)):
+            return list(st.value.elts)
+        return None
+    adders = [st for st in ast.walk(fn) if added(st) is not None]
+    stores = [n for n in ast.walk(fn) if isinstance(n, ast.Name) and n.id == res_name and isinstance(n.ctx, ast.Store)
+              and not any(isinstance(a, ast.AugAssign) and a.target is n for a in adders)]
+    muts = [c for c in ast.walk(fn) if isinstance(c, ast.Call) and isinstance(c.func, ast.Attribute) and norm(c.func.value) == res_name
+            and not any(isinstance(a, ast.Expr) and a.value is c for a in adders)]
+    if len(stores) != 1 or muts:
+        raise Undecided(f'{qn}: the result list `{res_name}` is rebound or changed by something else than append / extend([..]) / += [..]')
+    loops = [s for s in fn.body if isinstance(s, ast.For) and any(a in adders for a in ast.walk(s))]
+    if len(loops) != 1 or len([a for a in adders if any(a is x for x in ast.walk(loops[0]))]) != len(adders):
         raise Undecided(f'{qn}: expected exactly one top-level loop appending to `{res_name}`')
     loop = loops[0]
-    ctx.require(isinstance(loop.iter, ast.Name) and loop.iter.id in params and isinstance(loop.target, ast.Name),
-                f'{qn}: the loop visits every element of the parameter `{norm(loop.iter)}`', mod, qn, loop.iter,
-                f'the per-line loop iterates `{norm(loop.iter)}`, not the list of input lines itself: lines can be skipped or reordered', loop)
+    it = _single_def(fn, loop.iter)
+    while isinstance(it, ast.Call) and isinstance(it.func, ast.Name) and it.func.id in ('list', 'tuple', 'iter') and len(it.args) == 1 and not it.keywords:
+        it = _single_def(fn, it.args[0])          # order- and content-preserving wrappers
+    lossy = (isinstance(it, ast.Subscript) and isinstance(it.slice, ast.Slice) and isinstance(it.value, ast.Name) and it.value.id in params) or \
+        (isinstance(it, ast.Call) and isinstance(it.func, ast.Name) and it.func.id in ('filter', 'sorted', 'reversed', 'set', 'frozenset')
+         and any(isinstance(a, ast.Name) and a.id in params for a in it.args))
+    if isinstance(it, ast.Name) and it.id in params and isinstance(loop.target, ast.Name):
+        ctx.ok(f'{qn}: the loop visits every element of the parameter `{it.id}`')
+    elif lossy:
+        ctx.violation(mod, qn, loop.iter, f'the per-line loop iterates `{norm(loop.iter)}`, not the list of input lines itself: lines are skipped or reordered', loop)
+    else:
+        raise Undecided(f'{qn}: the per-line loop iterates `{norm(loop.iter)}`; cannot tell whether that is every input line in order')
     if not isinstance(loop.target, ast.Name):
         raise Undecided(f'{qn}: loop target is not a name')
     var = loop.target.id
@@ -1109,6 +1166,7 @@ def _line_loop(ctx: RuleCtx, mod: Module, qn: str) -> T.Set[str]:
         appended: T.List[T.Tuple[str, T.List[str]]] = []
         aux: T.Dict[str, str] = {}
         updated: T.List[str] = []
+        escapes: T.Set[str] = set()
         for ev in p.events:
             st = ev.node
             if ev.kind != 'stmt' or st is None:
@@ -1118,7 +1176,7 @@ def _line_loop(ctx: RuleCtx, mod: Module, qn: str) -> T.Set[str]:
                 first = tg.elts[0] if isinstance(tg, ast.Tuple) and tg.elts else tg
                 val = st.value
                 if isinstance(val, ast.Call) and isinstance(val.func, ast.Name) and mod.has_func(val.func.id):
-                    arg_tracked = [a for a in val.args if isinstance(a, ast.Name) and a.id in chain]
+                    arg_tracked = [a for a in list(val.args) + [k.value for k in val.keywords] if isinstance(a, ast.Name) and a.id in chain]
                     if arg_tracked and isinstance(first, ast.Name):
                         if len(arg_tracked) != 1:
                             raise Undecided(f'{qn}: {short(st)} receives the line twice')
@@ -1132,25 +1190,36 @@ def _line_loop(ctx: RuleCtx, mod: Module, qn: str) -> T.Set[str]:
                 for nm in ([first.id] if isinstance(first, ast.Name) else []):
                     if nm in chain:
                         raise Undecided(f'{qn}: the line variable `{nm}` is rebound by `{short(st)}` (not a call of a module-level transformer)')
-            elif isinstance(st, ast.Expr) and isinstance(st.value, ast.Call) and isinstance(st.value.func, ast.Attribute):
-                c = st.value
-                recv = norm(c.func.value)  # type: ignore[attr-defined]
-                if recv == res_name and c.func.attr == 'append':  # type: ignore[attr-defined]
-                    a0 = c.args[0] if len(c.args) == 1 else None
+            elif added(st) is not None:
+                for a0 in T.cast(T.List[ast.AST], added(st)):
                     if isinstance(a0, ast.Name) and a0.id in chain:
                         appended.append((a0.id, chain[a0.id]))
-                    elif isinstance(a0, ast.Call) and isinstance(a0.func, ast.Name) and mod.has_func(a0.func.id) and \
-                            len([x for x in a0.args if isinstance(x, ast.Name) and x.id in chain]) == 1 and not a0.keywords:
+                        continue
+                    targs = [x for x in list(a0.args) + [k.value for k in a0.keywords] if isinstance(x, ast.Name) and x.id in chain] if isinstance(a0, ast.Call) else []
+                    if isinstance(a0, ast.Call) and isinstance(a0.func, ast.Name) and mod.has_func(a0.func.id) and len(targs) == 1:
                         # append(transformer(line, ..)): the transformer's result is appended directly
-                        src_nm = [x.id for x in a0.args if isinstance(x, ast.Name) and x.id in chain][0]
+                        src_nm = targs[0].id  # type: ignore[attr-defined]
                         if mod.func(a0.func.id).returns is not None and norm(mod.func(a0.func.id).returns) != 'str':
-                            raise Undecided(f'{qn}: `{short(c)}` appends the result of {a0.func.id}, which is not annotated to return a str')
+                            raise Undecided(f'{qn}: `{short(st)}` appends the result of {a0.func.id}, which is not annotated to return a str')
                         used.add(a0.func.id)
                         appended.append((src_nm, chain[src_nm] + [a0.func.id]))
                     else:
-                        raise Undecided(f'{qn}: `{short(c)}` appends something that is not the line variable')
-                elif recv == miss_name and c.func.attr == 'update' and len(c.args) == 1 and isinstance(c.args[0], ast.Name):  # type: ignore[attr-defined]
-                    updated.append(c.args[0].id)
+                        raise Undecided(f'{qn}: `{short(st)}` appends something that is not the line variable')
+            elif isinstance(st, ast.Expr) and isinstance(st.value, ast.Call) and isinstance(st.value.func, ast.Attribute) and norm(st.value.func.value) == miss_name \
+                    and st.value.func.attr == 'update' and len(st.value.args) == 1 and isinstance(st.value.args[0], ast.Name):
+                updated.append(st.value.args[0].id)
+            elif isinstance(st, ast.AugAssign) and isinstance(st.op, ast.BitOr) and norm(st.target) == miss_name and isinstance(st.value, ast.Name):
+                updated.append(st.value.id)
+            if isinstance(st, ast.stmt):
+                for c in ast.walk(st):
+                    if isinstance(c, ast.Call):
+                        for a_ in list(c.args) + [k.value for k in c.keywords]:
+                            if isinstance(a_, ast.Name) and a_.id in (res_name, miss_name):
+                                escapes.add(a_.id)     # handed to a helper that may append / accumulate
+                    if isinstance(c, ast.Assign) and isinstance(c.value, ast.BinOp) and norm(c.targets[0]) == miss_name:
+                        escapes.add(miss_name)
+        if len(appended) == 0 and res_name in escapes:
+            raise Undecided(f'{qn}: on the path [{where}] `{res_name}` is handed to a helper; cannot see whether the line is appended there')
         if len(appended) != 1:
             ctx.violation(mod, qn, f'append to {res_name}: {len(appended)} on a path', f'on the path [{where}] the line is appended {len(appended)} times (must be exactly once)', last)
             continue
@@ -1161,11 +1230,13 @@ def _line_loop(ctx: RuleCtx, mod: Module, qn: str) -> T.Set[str]:
         # names missing from a replacement transformer must be accumulated
         need = [a for a, f in aux.items() if f in ch]
         lost = [a for a in need if a not in updated]
+        if lost and miss_name in escapes:
+            raise Undecided(f'{qn}: on the path [{where}] `{miss_name}` is handed to a helper or rebuilt; cannot see whether {lost} is accumulated')
         if lost:
             ctx.violation(mod, qn, f'missing names of {ch[0]} not accumulated', f'on the path [{where}] the names reported missing by {ch[0]} ({lost}) are not added to `{miss_name}`', last)
             continue
         ctx.ok(f'{qn}: path [{where}]: line appended once, ' + (f'through {ch[0]}' if ch else 'unchanged') + ('' if not need else f', missing names accumulated into {miss_name}'))
-    ctx.floor(f'{qn}: non-raising paths through the per-line loop', n, 2)
+    ctx.floor(f'{qn}: non-raising paths through the per-line loop', n, 1)
     return used
 
 
@@ -1204,18 +1275,38 @@ def r4b(ctx: RuleCtx) -> None:
     fl = Flow(fn)
     opens = _open_calls(fn)
     reads, writes = [], []
+    OPEN_SIG = ['file', 'mode', 'buffering', 'encoding', 'errors', 'newline', 'closefd', 'opener']
+
+    def open_arg(c: ast.Call, name: str) -> T.Optional[ast.AST]:
+        if any(isinstance(a, ast.Starred) for a in c.args) or any(k.arg is None for k in c.keywords):
+            raise Undecided(f'do_conf_file: `{short(c)}` passes */** arguments')
+        i = OPEN_SIG.index(name)
+        return c.args[i] if i < len(c.args) else kwarg(c, name)
+
+    def const_of(e: T.Optional[ast.AST]) -> T.Any:
+        """value of a literal / single-definition local / module constant; Undecided otherwise"""
+        if e is None:
+            return None
+        e = _single_def(fn, e)
+        if isinstance(e, ast.Constant):
+            return e.value
+        try:
+            return fold_expr(ctx.repo, mod, e)
+        except Undecided:
+            raise Undecided(f'do_conf_file: `{short(e)}` is not a constant')
     for w, c, f in opens:
-        mode = c.args[1] if len(c.args) > 1 else kwarg(c, 'mode')
-        m = mode.value if isinstance(mode, ast.Constant) else ('r' if mode is None else None)
-        if m is None:
-            raise Undecided(f'do_conf_file: open mode is not a literal: {short(c)}')
+        mode = open_arg(c, 'mode')
+        m = 'r' if mode is None else const_of(mode)
+        if not isinstance(m, str):
+            raise Undecided(f'do_conf_file: open mode is not a string constant: {short(c)}')
         (writes if any(x in m for x in 'wax+') else reads).append((w, c, f, m))
     ctx.floor('do_conf_file: open() for reading / writing', min(len(reads), len(writes)), 1)
     for w, c, f, m in reads + writes:
-        nl = kwarg(c, 'newline')
-        ok = isinstance(nl, ast.Constant) and nl.value == ''
+        nl_e = open_arg(c, 'newline')
+        nl = const_of(nl_e) if nl_e is not None else None      # absent -> the default None (universal newlines): the call is fully visible
+        ok = nl == '' and isinstance(nl, str)
         ctx.require(ok and 'b' not in m, f'do_conf_file: {short(c)}: text mode with newline=""', mod, 'do_conf_file', c,
-                    f'`{short(c)}` does not pass newline="": Python translates line terminators ' +
+                    f'`{short(c)}` opens the file with newline={nl!r}, not "": Python translates line terminators ' +
                     ('on input (\\r\\n and \\r become \\n)' if (w, c, f, m) in reads else 'on output (\\n becomes os.linesep)') +
                     ', so line endings of the template are not copied', c)
     # template lines: f.readlines() of the src file reach the `data` argument of do_conf_str
@@ -1226,11 +1317,21 @@ def r4b(ctx: RuleCtx) -> None:
     src_p, dst_p = fn.args.args[0].arg, fn.args.args[1].arg
     o = fl.origins(data) if data is not None else set()
     rd = [(w, c, f, m) for (w, c, f, m) in reads if f'call:{f}.readlines' in o]
-    allowed_r = {f'call:{f}.readlines' for _, _, f, _ in rd} | {'call:open', 'const'} | {f'param:{a.arg}' for a in fn.args.args}
+    allowed_r = {f'call:{f}.readlines' for _, _, f, _ in rd} | {'call:open', 'const'} | {f'param:{a.arg}' for a in fn.args.args} | \
+        {x for x in o if x.startswith('name:') and mod.has_assign(x[5:])}          # module-level constants (e.g. the newline mode)
     ok = len(rd) == 1 and o <= allowed_r and f'param:{src_p}' in fl.origins(rd[0][1].args[0])
-    ctx.require(ok, 'do_conf_file: the lines given to do_conf_str are exactly readlines() of the source file', mod, 'do_conf_file', calls[0],
-                f'the `data` argument of do_conf_str has origins {sorted(o)}; it must be <file>.readlines() of open({src_p}, newline="") and nothing else '
-                '(readlines keeps every terminator)', calls[0])
+    dv = _single_def(fn, data) if data is not None else None
+    lossy = isinstance(dv, ast.Call) and isinstance(dv.func, ast.Attribute) and (
+        (dv.func.attr == 'splitlines' and not (dv.args and isinstance(dv.args[0], ast.Constant) and dv.args[0].value) and
+         not (kwarg(dv, 'keepends') is not None and isinstance(kwarg(dv, 'keepends'), ast.Constant) and kwarg(dv, 'keepends').value))  # type: ignore[union-attr]
+        or dv.func.attr == 'split')
+    if ok:
+        ctx.ok('do_conf_file: the lines given to do_conf_str are exactly readlines() of the source file')
+    elif lossy:
+        ctx.violation(mod, 'do_conf_file', calls[0], f'the template lines are obtained by `{short(dv)}`, which drops the line terminators; they must be kept '
+                      '(readlines() of a file opened with newline="")', calls[0])
+    else:
+        raise Undecided(f'do_conf_file: the `data` argument of do_conf_str has origins {sorted(o)}; cannot tell whether these are the unmodified lines of the source file')
     # result lines: written with writelines / write(''.join(..)) to the file that is then moved to dst
     wcalls = []
     for w, c, f, m in writes:
@@ -1251,8 +1352,9 @@ def r4b(ctx: RuleCtx) -> None:
         arg = arg.args[0]
     o2 = fl.origins(arg)
     ok = 'call:do_conf_str' in o2 and not any(x.startswith('call:') and x not in ('call:do_conf_str', f'call:{rd[0][2]}.readlines' if rd else '', 'call:open') for x in o2)
-    ctx.require(ok, 'do_conf_file: the lines written are the result of do_conf_str, unmodified', mod, 'do_conf_file', wc,
-                f'the text written has origins {sorted(o2)}; it must be the list returned by do_conf_str', wc)
+    if not ok:
+        raise Undecided(f'do_conf_file: the text written has origins {sorted(o2)}; cannot tell whether it is the unmodified list returned by do_conf_str')
+    ctx.ok('do_conf_file: the lines written are the result of do_conf_str, unmodified')
     ctx.require(f'param:{dst_p}' in fl.origins(oc.args[0]), 'do_conf_file: output file name derives from dst', mod, 'do_conf_file', oc,
                 'the file written is not derived from the dst parameter', oc)
 
@@ -1299,12 +1401,21 @@ def r4c(ctx: RuleCtx) -> None:
     call, cbname, text = _scan_call(mod, 'do_replacement_meson')
     fn = mod.func('do_replacement_meson')
     params = [a.arg for a in fn.args.args]
-    stores = [n for n in ast.walk(fn) if isinstance(n, ast.Name) and isinstance(n.ctx, ast.Store) and isinstance(text, ast.Name) and n.id == text.id]
+    text = _single_def(fn, text)
     rets = [s for s in ast.walk(fn) if isinstance(s, ast.Return) and not any(s in ast.walk(f) for f in ast.walk(fn) if isinstance(f, ast.FunctionDef) and f is not fn)]
-    direct = len(rets) == 1 and isinstance(rets[0].value, ast.Tuple) and rets[0].value.elts and _single_def(fn, rets[0].value.elts[0]) is call
-    ctx.require(isinstance(text, ast.Name) and text.id in params and not stores and direct,
-                'do_replacement_meson: returns the scan of its own line parameter, untouched before and after', mod, 'do_replacement_meson', call,
-                f'the text scanned is `{norm(text)}` and the result is post-processed: the line is no longer copied outside placeholders', call)
+    if len(rets) != 1 or not isinstance(rets[0].value, ast.Tuple) or not rets[0].value.elts:
+        raise Undecided('do_replacement_meson: expected a single `return <text>, <missing>`')
+    out_e = _single_def(fn, rets[0].value.elts[0])
+    stores = [n for n in ast.walk(fn) if isinstance(n, ast.Name) and isinstance(n.ctx, ast.Store) and isinstance(text, ast.Name) and n.id == text.id]
+    pre_changed = not isinstance(text, ast.Name) and any(isinstance(n, ast.Name) and n.id in params for n in ast.walk(text))
+    post_changed = out_e is not call and any(n is call for n in ast.walk(out_e))
+    if isinstance(text, ast.Name) and text.id in params and not stores and out_e is call:
+        ctx.ok('do_replacement_meson: returns the scan of its own line parameter, untouched before and after')
+    elif pre_changed or post_changed:
+        ctx.violation(mod, 'do_replacement_meson', call, f'the text scanned is `{norm(text)}` and the text returned is `{short(out_e)}`: the line is changed ' +
+                      ('before' if pre_changed else 'after') + ' the scan, so it is no longer copied unchanged outside placeholders', call)
+    else:
+        raise Undecided(f'do_replacement_meson: scans `{norm(text)}` and returns `{short(out_e)}`; cannot relate them to the line parameter')
     pat = _variable_regex(ctx, mod, 'meson')
     tree, alts = _alternatives(pat)
     for i, items in enumerate(alts):
@@ -1340,8 +1451,18 @@ def r5(ctx: RuleCtx) -> None:
     keysrc = {f'{cd}.keys()', f'{cd}.values', f'{cd}.values.keys()', f'list({cd}.keys())', f'{cd}.values.items()'}
     if isinstance(it, ast.Call) and norm(it.func) == 'sorted':
         rev = kwarg(it, 'reverse')
-        if [k.arg for k in it.keywords] not in ([], ['reverse']) or len(it.args) != 1 or (rev is not None and not isinstance(rev, ast.Constant)):
-            raise Undecided(f'_dump_c_header: {short(it)}: sorted() with a key / computed reverse argument')
+        keyf = kwarg(it, 'key')
+        if keyf is not None:
+            kn = norm(keyf)
+            ident = kn in ('None', 'str') or (isinstance(keyf, ast.Lambda) and len(keyf.args.args) == 1 and norm(keyf.body) == keyf.args.args[0].arg)
+            if not ident and kn in ('str.lower', 'str.upper', 'str.casefold', 'str.swapcase', 'len'):
+                # a key function that identifies / reorders distinct names: `B` < `a` in plain order, `a` < `B` under str.lower
+                ctx.violation(mod, '_dump_c_header', loop.iter, f'the keys are iterated through `{short(it)}`: ordered by {kn}, not by the names themselves '
+                              '(e.g. the names `B` and `a` come out in the other order)', loop)
+            elif not ident:
+                raise Undecided(f'_dump_c_header: {short(it)}: sorted() with a key function')
+        if any(k.arg not in ('reverse', 'key') for k in it.keywords) or len(it.args) != 1 or (rev is not None and not isinstance(rev, ast.Constant)):
+            raise Undecided(f'_dump_c_header: {short(it)}: sorted() with a computed reverse argument')
         if rev is not None and rev.value:
             ctx.violation(mod, '_dump_c_header', loop.iter, f'the keys are iterated through `{short(it)}`: descending, the header must list them in ascending order', loop)
         inner = norm(it.args[0])
@@ -1356,7 +1477,10 @@ def r5(ctx: RuleCtx) -> None:
         raise Undecided('_dump_c_header: loop target is not a single name')
     k = loop.target.id
     n = 0
-    for p in enumerate_paths(loop.body, unroll=1):
+    kinds_seen: T.Set[T.FrozenSet[str]] = set()
+    etab = shape.table(fn, body=loop.body, handlers=False, name='_dump_c_header:entry')
+    for r in T.cast(T.List[shape.XRow], etab.rows):
+        p = r.path
         where = p.describe()[:140]
         if p.outcome == 'raise':
             continue
@@ -1364,15 +1488,25 @@ def r5(ctx: RuleCtx) -> None:
         if p.outcome != 'fall':
             ctx.violation(mod, '_dump_c_header', last or loop, f'the loop body ends with `{p.outcome}` on the path [{where}]: a key is skipped', last)
             continue
-        ws = [c for c in p.calls() if isinstance(c.func, ast.Attribute) and norm(c.func.value) == of and c.func.attr == 'write' and k in names_in(c)]
+        # a write whose text has the key itself as an operand (reaching definitions substituted) is the emission for that key
+        ws = [c for c in r.calls if isinstance(c.func, ast.Attribute) and norm(c.func.value) == of and c.func.attr == 'write' and len(c.args) == 1
+              and any(isinstance(x, shape.Op) and x.expr == k for x in shape.flatten(shape.parts(c.args[0])))]
+        handed = [c for c in r.calls if not (isinstance(c.func, ast.Attribute) and norm(c.func.value) == of)
+                  and any(isinstance(a_, ast.Name) and a_.id == of for a_ in list(c.args) + [kw.value for kw in c.keywords])]
         n += 1
+        arm = frozenset(t for a_, val in r.conds.items() if val and a_.kind == 'isinstance' for t in a_.args[1])
+        if len(ws) == 1 and arm:
+            kinds_seen.add(arm)
         if len(ws) == 1:
             ctx.ok(f'_dump_c_header: path [{where}]: one emission for the key: {short(ws[0])}')
+        elif len(ws) == 0 and handed:
+            raise Undecided(f'_dump_c_header: on the path [{where}] the output file is handed to {short(handed[0])}; cannot see the emission')
         else:
             ctx.violation(mod, '_dump_c_header', f'{len(ws)} emissions for a key: {where}', f'on the path [{where}] the key is emitted {len(ws)} times (must be exactly once)', last)
-    ctx.floor('_dump_c_header: non-raising paths through the loop body', n, 6)
+    ctx.floor('_dump_c_header: value kinds (isinstance arms) with exactly one emission', len(kinds_seen), 2)
     # the caller: one emitter per path; json sorted
     dfn = mod.func('dump_conf_header')
+    emitters: T.Set[str] = set()
     np_ = 0
     for p in enumerate_paths(dfn.body, unroll=1):
         if p.outcome == 'raise':
@@ -1382,6 +1516,15 @@ def r5(ctx: RuleCtx) -> None:
         js = [c for c in calls if attr_chain(c.func) == 'json.dump']
         np_ += 1
         where = p.describe()[:120]
+        cdp0 = {x.arg for x in dfn.args.args if x.annotation is not None and 'ConfigurationData' in norm(x.annotation)}
+        others = [c for c in calls if attr_chain(c.func) not in ('open', 'replace_if_different') and
+                  any(isinstance(a_, ast.Name) and a_.id in cdp0 for a_ in list(c.args) + [kw.value for kw in c.keywords])]
+        if len(hdr) + len(js) == 0 and others:
+            raise Undecided(f'dump_conf_header: path [{where}]: the data is handed to {short(others[0])}, an emitter this rule does not know')
+        for c_ in hdr:
+            emitters.add('header')
+        for c_ in js:
+            emitters.add('json')
         if len(hdr) + len(js) != 1:
             ctx.violation(mod, 'dump_conf_header', f'{len(hdr)} header / {len(js)} json emissions: {where}', f'path [{where}] emits the data {len(hdr) + len(js)} times', dfn)
             continue
@@ -1405,7 +1548,7 @@ def r5(ctx: RuleCtx) -> None:
             cdp = [x.arg for x in dfn.args.args if x.annotation is not None and 'ConfigurationData' in norm(x.annotation)]
             ctx.require(len(a) >= 2 and cdp and norm(a[1]) == cdp[0], f'dump_conf_header: path [{where}] hands the whole data object to _dump_c_header', mod, 'dump_conf_header', hdr[0],
                         'the data object is not passed unchanged to _dump_c_header', hdr[0])
-    ctx.floor('dump_conf_header: paths', np_, 2)
+    ctx.floor('dump_conf_header: emitters reached (header, json)', len(emitters), 2)
 
 
 # ---------------------------------------------------------------------------------------------
@@ -1472,6 +1615,7 @@ def r6(ctx: RuleCtx) -> None:
     mod = ctx.repo.module(U)
     fns = _pipeline(mod, PIPELINE_ROOTS + HEADER_ROOTS)
     n = 0
+    handed: T.Set[str] = set()
     for q in fns:
         f = mod.func(q)
         # context a function holds: its own parameters and those of the functions it is nested in
@@ -1504,6 +1648,7 @@ def r6(ctx: RuleCtx) -> None:
                 raise Undecided(f'{q}: cannot bind the arguments of `{short(c)}`')
             for p in shared:
                 n += 1
+                handed.add(p)
                 what = f'{q} -> {gq}: context parameter `{p}` is handed on'
                 if p not in bound:
                     defaults = {a.arg for a, d in zip(reversed(g.args.posonlyargs + g.args.args), reversed(g.args.defaults))} | \
@@ -1528,8 +1673,26 @@ def r6(ctx: RuleCtx) -> None:
                                       '(arguments cross-wired)', c)
                     else:
                         raise Undecided(f'{q}: `{short(c)}` binds `{p}` to `{short(arg, 40)}`; cannot tell whether it carries {q}\'s `{p}`')
-    ctx.floor('context parameters handed on at call sites of the pipeline', n, 14)
-    # the two dispatchers derive the cmake switch from the format: only 'cmake@' restricts substitution to @VAR@
+    ctx.floor('distinct context parameters handed on in the pipeline', len(handed), 3)
+    # the two dispatchers derive the cmake switch from the format: only 'cmake@' restricts substitution to @VAR@.
+    # The switch, by role: the bool parameter(s) of the cmake scanner, and every parameter of a pipeline function that is handed on as one.
+    scanner = mod.func('do_replacement_cmake')
+    switches: T.Set[T.Tuple[str, str]] = {('do_replacement_cmake', a.arg) for a in scanner.args.posonlyargs + scanner.args.args + scanner.args.kwonlyargs
+                                          if a.annotation is not None and norm(a.annotation) == 'bool'}
+    if not switches:
+        raise Undecided('do_replacement_cmake has no bool parameter: the @-only switch is not found')
+    for _ in range(4):
+        for q in fns:
+            if '.' in q:
+                continue
+            f = mod.func(q)
+            for c in [c for c in ast.walk(f) if isinstance(c, ast.Call) and isinstance(c.func, ast.Name) and mod.has_func(c.func.id)]:
+                bound = _bind_call(c, mod.func(c.func.id))
+                if bound is None:
+                    continue
+                for pn, arg in bound.items():
+                    if (c.func.id, pn) in switches and isinstance(arg, ast.Name) and arg.id in _ctx_params(f):
+                        switches.add((q, arg.id))
     for q in ('do_conf_str', 'do_replacement'):
         f = mod.func(q)
         fmt = [a.arg for a in f.args.args if a.annotation is not None and 'Literal' in norm(a.annotation)]
@@ -1538,7 +1701,7 @@ def r6(ctx: RuleCtx) -> None:
         hits = 0
         for c in [c for c in ast.walk(f) if isinstance(c, ast.Call) and isinstance(c.func, ast.Name) and mod.has_func(c.func.id)]:
             g = mod.func(c.func.id)
-            sw = [a.arg for a in g.args.posonlyargs + g.args.args + g.args.kwonlyargs if a.annotation is not None and norm(a.annotation) == 'bool' and a.arg not in _ctx_params(f)]
+            sw = [a.arg for a in g.args.posonlyargs + g.args.args + g.args.kwonlyargs if (c.func.id, a.arg) in switches and a.arg not in _ctx_params(f)]
             if not sw:
                 continue
             bound = _bind_call(c, g)
